@@ -1,6 +1,9 @@
 /-
 C16 — witnesses: clauses that are false of the current code, refuted on a concrete input of the model
-(mirrored by a `finding:` line in known_findings.txt and a replay on the real implementation in py/props/c16.py).
+(mirrored by a `finding:` line in known_findings.txt and a replay on the real implementation in py/props/c16.py):
+`embedded_files_unsorted`; and regression theorems for the repaired findings (`fixed:` lines), stating the now-correct
+behaviour on the input that used to refute the clause: `alpha_state_cache_regression`, `dests_names_sorted_regression`,
+`none_component_regression`.
 -/
 import WpModel.Model.PdfStream
 import WpModel.Model.PdfNames
@@ -15,29 +18,53 @@ def paintsOf (x : Except PyErr (SState × Res)) : List (Op × GS) :=
   | .error _ => []
 
 /-- What `draw_text` + `set_mask_border` do for two texts of the same translucent colour, the second one in a box with
-a mask border: `set_alpha(0.5)`, paint, `set_alpha_state(…)` (an ExtGState with `ca 1`), `set_alpha(0.5)`, paint. -/
+a mask border: `set_alpha(0.5)`, paint, `set_alpha_state(…)` (an ExtGState with `ca 1`; as repaired it also forgets
+`_current_alpha`), `set_alpha(0.5)`, paint. -/
 def staleAlphaCalls : List Call :=
   [.setAlpha (.flt (1/2)) false none, .raw .fill [] false "-",
-   .setState { ca := some (.int 1), kind := "smask" },
+   .softMaskState,
    .setAlpha (.flt (1/2)) false none, .raw .fill [] false "-"]
 
-/-- **cache_sound is false of the current code**: `Stream.set_alpha_state` writes an ExtGState that sets `ca` but leaves
-`_current_alpha`, so the next `set_alpha` with the cached value is skipped and the second fill is executed under
-`ca = 1` instead of the requested `0.5` (the cache-free emission executes it under `0.5`). -/
-theorem alpha_state_stale_cache :
-    paintsOf (runS {} {} staleAlphaCalls) ≠ paintsOf (runNaive {} {} staleAlphaCalls) := by decide +kernel
+/-- Regression of the fixed finding `alpha-state-stale-cache` (commit acee745): on the input that refuted `cache_sound`,
+the cached emission now executes both fills under what the cache-free reference emission executes them under … -/
+theorem alpha_state_cache_regression :
+    paintsOf (runS {} {} staleAlphaCalls) = paintsOf (runNaive {} {} staleAlphaCalls) := by decide +kernel
 
-/-- The fill alpha under which the second fill is executed: cached emission `1`, reference emission `0.5`. -/
-theorem alpha_state_stale_cache_values :
-    ((paintsOf (runS {} {} staleAlphaCalls)).head?.map (·.2.ca) = some (some (.int 1))) ∧
+/-- … namely the second fill under the requested `ca = 0.5` (it was `1` before the repair), in both emissions. -/
+theorem alpha_state_cache_regression_values :
+    ((paintsOf (runS {} {} staleAlphaCalls)).head?.map (·.2.ca) = some (some (.flt (1/2)))) ∧
     ((paintsOf (runNaive {} {} staleAlphaCalls)).head?.map (·.2.ca) = some (some (.flt (1/2)))) := by
   decide +kernel
 
-/-- **names_sorted is false of the current code**: anchors named `aé` and `b`.  `sorted()` puts `aé` first (code points
-`a` < `b`), but its key is written as `<FEFF 0061 00E9>` whose first byte `FE` is above `b` (`62`): the keys of the
-`/Dests` name array are not in lexical byte order. -/
-theorem dests_names_unsorted :
-    PdfNames.sortedBy PdfNames.lexLe (PdfNames.destKeys [[98], [97, 233]]) = false ∧
-    PdfNames.destKeys [[98], [97, 233]] = [[0xFE, 0xFF, 0, 97, 0, 233], [98]] := by decide
+/-- What the repair prevents: the same calls with a bare `set_state` carrying `ca 1` (the code before the repair) are
+executed under `ca = 1` — the remaining hypothesis `Call.cacheSafe` of `cache_sound` is needed. -/
+theorem bare_set_state_still_stale :
+    paintsOf (runS {} {} [.setAlpha (.flt (1/2)) false none, .setState softMaskDict,
+      .setAlpha (.flt (1/2)) false none, .raw .fill [] false "-"]) ≠
+    paintsOf (runNaive {} {} [.setAlpha (.flt (1/2)) false none, .setState softMaskDict,
+      .setAlpha (.flt (1/2)) false none, .raw .fill [] false "-"]) := by decide +kernel
+
+/-- Regression of the fixed finding `dests-names-unsorted` (commit 09da5a8): anchors named `aé` and `b`.  The key of
+`aé` is written as `<FEFF 0061 00E9>` whose first byte `FE` is above `b` (`62`); the array is now ordered by these
+bytes (`b` first) and sorted; the old `sorted(pdf_names)` order (code points: `aé` first) was not. -/
+theorem dests_names_sorted_regression :
+    PdfNames.destKeys [[98], [97, 233]] = [[98], [0xFE, 0xFF, 0, 97, 0, 233]] ∧
+    PdfNames.sortedBy PdfNames.lexLe (PdfNames.destKeys [[98], [97, 233]]) = true ∧
+    PdfNames.sortedBy PdfNames.lexLe (PdfNames.destKeysStrOrder [[98], [97, 233]]) = false := by decide
+
+/-- Regression of the fixed finding `none-component-unsupported-space` (commit 57f3ce9): `color(display-p3 none 0 1)`
+is written `0 0 1 rg`, not `None 0 1 rg`. -/
+theorem none_component_regression :
+    (colourOps ⟨"display-p3", .none, .int 0, .int 1, .int 1, .none, .int 0, .int 1⟩ false).map Op.render =
+      ["0_0_1_rg"] := by decide +kernel
+
+/-- **The `/EmbeddedFiles` name tree is not sorted for all file names** (false of the current code; finding
+`embedded-files-sorted-by-serialised-key`): attachments named `a` and `a b`.  The sort key is the serialised string:
+`(a)` against `(a b)` compares `)` (29h) with the blank (20h), so `a b` is listed first although `a` — a prefix of it — is
+the smaller key; likewise `a(` is serialised `(a\()` and lands after `aA`. -/
+theorem embedded_files_unsorted :
+    PdfNames.embeddedKeys [[97], [97, 32, 98]] = [[97, 32, 98], [97]] ∧
+    PdfNames.sortedBy PdfNames.lexLe (PdfNames.embeddedKeys [[97], [97, 32, 98]]) = false ∧
+    PdfNames.sortedBy PdfNames.lexLe (PdfNames.embeddedKeys [[97, 40], [97, 65]]) = false := by decide
 
 end Wp.C16.Witness
